@@ -9,7 +9,7 @@ reflection coefficients) and pminvar.  N up to 128, m up to 16: ObsC16.tla.
 import numpy as np
 
 from .. import core, material as M, tlc, obs
-from ..kern_util import call_guard, cmp_vec, live_object_dev, entry_variants
+from ..kern_util import fresh, call_guard, cmp_vec, live_object_dev, entry_variants
 from .C13 import stage_minimiser_dev
 
 
@@ -48,7 +48,7 @@ def replay_state(chk, st, cplx):
             chk._c16_counter = counter + 1
             for ename, xin, tol in entry_variants(xa, cplx, counter, full=chk.tier != 'quick'):
                 tol = 1e-7 if tol < 1e-6 else 1e-3
-                ok, res = call_guard(minvar, xin if isinstance(xin, list) else xin.copy(), m, sampling=sampling, NFFT=nfft)
+                ok, res = call_guard(minvar, fresh(xin), m, sampling=sampling, NFFT=nfft)
                 chk.evaluations += 1
                 if not ok:
                     chk.violation('C16:minvar:%s:raises:%s' % (mode, ename), 'minvar raises %r (%s input)' % (res, ename), case)
